@@ -91,6 +91,9 @@ package ast
 //@ ghost var $thenFailN int             // then-statements that returned an error
 //@ modset thenlog = $thenN, $thenSeq, $thenFailN
 //@ ghost var $resetAllN int             // calls of WorkingMemory.ResetAll (C13: once per run, in the prologue)
+//@ ghost var $memResetN int             // calls of WorkingMemory.Reset / ResetVariable / ResetAll: only assignments, Forget/Changed and the
+//                                       // engine's prologue may forget remembered values - evaluating an expression or calling a fact
+//                                       // method never does (C13: the frame of every evaluation function excludes this counter)
 //@ ghost var $depth int                 // nesting depth of Expression.Evaluate calls
 //@ ghost var $inAction bool             // inside ThenScope.Execute
 // engine-visible state that only a STATEMENT-LEVEL function call of an action may change (A-NESTED / T-USER: function calls
@@ -163,7 +166,8 @@ package ast
 //@   requires workingMem != nil && WMInv(workingMem)
 //@   nopanic
 //@   ghost_entry $resetAllN = $resetAllN + 1
-//@   modifies Expression.Evaluated, ExpressionAtom.Evaluated
+//@   modifies Expression.Evaluated, ExpressionAtom.Evaluated, $memResetN
+//@   ghost_entry $memResetN = $memResetN + 1
 //@   ensures memoClear(workingMem)
 //@   invariant@1 forall j int :: 0 <= j && j < $i ==> !workingMem.expressionSnapshotMap[$keys[j]].Evaluated
 //@   invariant@2 forall j int :: 0 <= j && j < $i ==> !workingMem.expressionAtomSnapshotMap[$keys[j]].Evaluated
@@ -293,7 +297,7 @@ package ast
 //@   ghost_entry $inAction = true
 //@   ghost_exit $inAction = false
 //@   ghost_exit $sinceNilCheck = $sinceNilCheck + 1
-//@   modifies @actions, @thenlog
+//@   modifies @actions, @thenlog, $memResetN
 //@   ensures forall re *RuleEntry :: old(re.Retracted) ==> re.Retracted
 //@   ensures forall d Ref :: old($complete[d]) ==> $complete[d]
 //@   panic_ensures forall re *RuleEntry :: old(re.Retracted) ==> re.Retracted
@@ -304,7 +308,7 @@ package ast
 //@   requires e != nil && ctx != nil
 //@   requires $depth == 0 && treeWF()
 //@   nopanic
-//@   modifies @actions, @thenlog, @ctxghost
+//@   modifies @actions, @thenlog, @ctxghost, $memResetN
 //@   ensures forall re *RuleEntry :: old(re.Retracted) ==> re.Retracted
 //@   ensures forall d Ref :: old($complete[d]) ==> $complete[d]
 //@   ensures old($cancelled) ==> err != nil && wrapsCtx(err, ctx)
@@ -562,7 +566,8 @@ package ast
 // I2: ResetVariable forgets exactly idx[v]
 //@ func (workingMem *WorkingMemory) ResetVariable(variable) (reseted)
 //@   serves C01 C02 C13
-//@   modifies Expression.Evaluated, ExpressionAtom.Evaluated
+//@   modifies Expression.Evaluated, ExpressionAtom.Evaluated, $memResetN
+//@   ghost_entry $memResetN = $memResetN + 1
 //@   ensures[C01,C02] exprs: forall x *Expression :: inExprIdx(workingMem, variable, x) ==> !x.Evaluated
 //@   ensures[C01,C02] atoms: forall a *ExpressionAtom :: inAtomIdx(workingMem, variable, a) ==> !a.Evaluated
 //@   ensures[C13] onlyexprs: forall x *Expression :: !inExprIdx(workingMem, variable, x) ==> x.Evaluated == old(x.Evaluated)
@@ -577,7 +582,7 @@ package ast
 //@ func (e *Variable) Assign(newVal, dataContext, memory) (err)
 //@   serves C01 C02 C04 C08 C13
 //@   requires treeWF()
-//@   modifies @memo, @setlog, $loc, $varRes, $exprRes, $atomRes, @reslog
+//@   modifies @memo, @setlog, $loc, $varRes, $exprRes, $atomRes, @reslog, $memResetN
 //@   ghost_entry $asgN = $asgN + 1
 //@   ghost_entry $asgVar = e
 //@   ghost_entry $asgVal = newVal
@@ -599,7 +604,7 @@ package ast
 //@ func (e *Assignment) Execute(dataContext, memory) (err)
 //@   serves C04 C01 C02
 //@   requires $depth == 0 && treeWF()
-//@   modifies @memo, @setlog, $loc, $varRes, $exprRes, $atomRes, @reslog, $asgN, $asgVar, $asgVal, $asgExprSnap, $asgVarSnap
+//@   modifies @memo, @setlog, $loc, $varRes, $exprRes, $atomRes, @reslog, $asgN, $asgVar, $asgVal, $asgExprSnap, $asgVarSnap, $memResetN
 //@   ensures[C04,C01,C02] assign: err == nil && e.IsAssign ==> $asgN == old($asgN) + 1 && $asgVar == e.Variable && $asgVal == e.Expression.Value
 //@   ensures[C04,C01,C02] plus: err == nil && !e.IsAssign && e.IsPlusAssign ==> $asgN == old($asgN) + 1 && $asgVar == e.Variable && $asgVal == fn_EvaluateAddition_0($asgVarSnap[e.Variable], e.Expression.Value)
 //@   ensures[C04,C01,C02] minus: err == nil && !e.IsAssign && !e.IsPlusAssign && e.IsMinusAssign ==> $asgN == old($asgN) + 1 && $asgVar == e.Variable && $asgVal == fn_EvaluateSubtraction_0($asgVarSnap[e.Variable], e.Expression.Value)
@@ -612,7 +617,7 @@ package ast
 //@ func (e *ThenExpression) Execute(dataContext, memory) (err)
 //@   serves C04 C10
 //@   requires $depth == 0 && treeWF()
-//@   modifies @actions
+//@   modifies @actions, $memResetN
 //@   ghost_entry $thenSeq = store($thenSeq, $thenN, e)
 //@   ghost_entry $thenN = $thenN + 1
 //@   ghost_exit $thenFailN = ite(err != nil, $thenFailN + 1, $thenFailN)
@@ -624,7 +629,7 @@ package ast
 //@ func (e *ThenExpressionList) Execute(dataContext, memory) (err)
 //@   serves C04 C10 C14
 //@   requires $depth == 0 && treeWF()
-//@   modifies @actions, @thenlog
+//@   modifies @actions, @thenlog, $memResetN
 //@   ensures[C04,C10] allinorder: err == nil ==> $thenN == old($thenN) + len(e.ThenExpressions) && (forall k int :: 0 <= k && k < len(e.ThenExpressions) ==> $thenSeq[old($thenN) + k] == e.ThenExpressions[k])
 //@   ensures[C04,C14] stopsatfirsterror: err != nil ==> old($thenN) < $thenN && $thenN <= old($thenN) + len(e.ThenExpressions) && (forall k int :: 0 <= k && k < $thenN - old($thenN) ==> $thenSeq[old($thenN) + k] == e.ThenExpressions[k])
 //@   ensures forall re *RuleEntry :: old(re.Retracted) ==> re.Retracted
@@ -681,7 +686,8 @@ package ast
 //@ macro func namedVar(m *WorkingMemory, name string) bool { return exists k string :: has(m.variableSnapshotMap, k) && m.variableSnapshotMap[k] != nil && m.variableSnapshotMap[k].GrlText == name }
 //@ func (workingMem *WorkingMemory) Reset(name) (r)
 //@   serves C01 C02 C13
-//@   modifies Expression.Evaluated, ExpressionAtom.Evaluated
+//@   modifies Expression.Evaluated, ExpressionAtom.Evaluated, $memResetN
+//@   ghost_entry $memResetN = $memResetN + 1
 //@   ensures[C01,C02] bytext: !namedVar(workingMem, name) ==> (forall k string :: has(workingMem.expressionSnapshotMap, k) && (str_contains(k, name) || str_contains(workingMem.expressionSnapshotMap[k].GrlText, name)) ==> !workingMem.expressionSnapshotMap[k].Evaluated)
 //@        && (forall k string :: has(workingMem.expressionAtomSnapshotMap, k) && (str_contains(k, name) || str_contains(workingMem.expressionAtomSnapshotMap[k].GrlText, name)) ==> !workingMem.expressionAtomSnapshotMap[k].Evaluated)
 //@   ensures[C01,C02] byvariable: namedVar(workingMem, name) ==> (exists v *Variable :: v != nil && v.GrlText == name && (forall x *Expression :: inExprIdx(workingMem, v, x) ==> !x.Evaluated) && (forall a *ExpressionAtom :: inAtomIdx(workingMem, v, a) ==> !a.Evaluated))
